@@ -97,6 +97,7 @@ type G struct {
 	configs  []string
 	nfile    int
 	nvar     int
+	rec      map[string]bool
 }
 
 // Draw generates one model from r under cfg.
@@ -115,6 +116,23 @@ func Draw(r *rand.Rand, cfg Config) *Model {
 	return g.m
 }
 
+// Paths lists the attribute paths Config.Force / Config.Avoid act on (collected from saturated draws).
+func Paths() []string {
+	rec := map[string]bool{}
+	for seed := int64(1); seed <= 8; seed++ {
+		cfg := Saturated()
+		cfg.EnvFileFormat = true
+		g := &G{R: rand.New(rand.NewSource(seed)), Cfg: cfg, rec: rec, m: &Model{Doc: M{}, Files: map[string]string{}, Env: map[string]string{}}}
+		g.project()
+	}
+	out := make([]string, 0, len(rec))
+	for p := range rec {
+		out = append(out, p)
+	}
+	sort.Strings(out)
+	return out
+}
+
 // Saturated is the configuration that makes every attribute present.
 func Saturated() Config {
 	return Config{MaxServices: 4, Density: 1, Profiles: true, TrickyText: true}
@@ -122,6 +140,9 @@ func Saturated() Config {
 
 // want decides whether the optional attribute at path is generated.
 func (g *G) want(path string) bool {
+	if g.rec != nil {
+		g.rec[path] = true
+	}
 	if g.Cfg.Avoid[path] {
 		return false
 	}
